@@ -98,8 +98,11 @@ func guardOnce(f func() (string, error)) (res Outcome) {
 				res = Outcome{Kind: Fatal}
 			case runtime.Error:
 				res = Outcome{Kind: Runtime, Msg: v.Error(), Site: repoFrame()}
+			case zerolog.VerifPanic:
+				res = Outcome{Kind: Panic, Msg: string(v)}
 			case string:
-				res = Outcome{Kind: Panic, Msg: v}
+				// a Go panic with a string value that is not the logger's: misuse of a library type, an explicit panic
+				res = Outcome{Kind: Other, Msg: v, Site: repoFrame()}
 			default:
 				res = Outcome{Kind: Other, Msg: fmt.Sprint(x), Site: repoFrame()}
 			}
